@@ -8,7 +8,7 @@
    Generated from the current /repo on every run: Gen_C04.gen_shape (wake-up tests of queueInLoop
    and quit, where loop() resets quit_), Gen_C05.gen_eshape (EventLoopThread.cc), Gen_C05.gen_get_next
    / gen_get_hash (EventLoopThreadPool.cc, symbolically executed). *)
-From Coq Require Import List Bool Arith Lia.
+From Coq Require Import List Bool Arith ZArith Lia.
 Import ListNotations.
 From Muduo Require Import C04_Model C04_Proofs C05_Model C05_Proofs C05_PoolProofs C05_EltProofs Gen_C04 Gen_C05 C05_GenRun C05_GenLink.
 
@@ -18,15 +18,28 @@ Theorem C05_gen_quit_wakes : qwake_ok Gen_C04.gen_shape = true.
 Proof. vm_compute. reflexivity. Qed.
 Print Assumptions C05_gen_quit_wakes.
 
-(* getNextLoop / getLoopForHash of the current source are the model's functions, for ALL arguments *)
+(* both translators recognised the current source (otherwise Gen_C05 holds fall-back definitions) *)
+Theorem C05_gen_translated : gen_pool_translated = true /\ gen_elt_translated = true.
+Proof. split; reflexivity. Qed.
+Print Assumptions C05_gen_translated.
+
+(* getNextLoop / getLoopForHash of the current source -- executed with C integer semantics: the
+   cursor is an int (two's complement wrap-around), conversions to size_t are mod 2^64 -- are the
+   model's functions on every state the pool can be in: pool size N <= INT_MAX, cursor < N (or N = 0),
+   hash codes <= SIZE_MAX; hence for every call sequence *)
 Theorem C05_gen_pool_is_model :
-  (forall n next, gen_get_next n next = get_next pinned_pshape n next) /\
-  (forall n next h, gen_get_hash n next h = (get_hash pinned_pshape n h, next)) /\
-  (forall n ops next, gen_pool_run n next ops = pool_run pinned_pshape n next ops).
+  (forall n next : nat, (Z.of_nat n <= int_max)%Z -> (n = 0 \/ next < n) ->
+     gen_get_next (Z.of_nat n) (Z.of_nat next) =
+       (zo (fst (get_next pinned_pshape n next)), Z.of_nat (snd (get_next pinned_pshape n next)))) /\
+  (forall (n h : nat) (next : Z), (Z.of_nat h <= size_max)%Z ->
+     gen_get_hash (Z.of_nat n) next (Z.of_nat h) = (zo (get_hash pinned_pshape n h), next)) /\
+  (forall n ops next, (Z.of_nat n <= int_max)%Z -> (n = 0 \/ next < n) -> hashes_ok ops ->
+     gen_pool_run (Z.of_nat n) (Z.of_nat next) ops = zres (pool_run pinned_pshape n next ops)).
 Proof. exact (conj gen_next_is_model (conj gen_hash_is_model gen_pool_run_is_model)). Qed.
 Print Assumptions C05_gen_pool_is_model.
 
-(* EventLoopThread.cc: notify after publishing under the mutex, wait in a while, quit then join *)
+(* EventLoopThread.cc: notify after publishing under the mutex, wait in a while, quit then join,
+   loop_ cleared under the mutex when loop() has returned *)
 Theorem C05_gen_thread_is_model : gen_eshape = pinned_eshape.
 Proof. exact gen_eshape_is_model. Qed.
 Print Assumptions C05_gen_thread_is_model.
@@ -117,7 +130,7 @@ Eval vm_compute in (C05_current_tree_has_F3, 503).   (* parsed by lib/props/C05.
    still has a child that will publish and notify (no lost notification); and during start-up
    some thread can always step (no deadlock) *)
 Theorem C05_startloop_handshake : forall es sh scr cb uacts e,
-  ereach es sh scr (einit cb uacts) e -> sl_while es = true ->
+  ereach es sh scr (einit cb uacts) e -> tf_clears es = true -> sl_while es = true ->
   (forall b, got e = Some b -> b = true) /\
   (eo e = OUnlock -> ptr e = true /\ alive e = true) /\
   (tf_notifies es = true -> returned (log (sg (ls e))) = false ->
@@ -129,7 +142,7 @@ Print Assumptions C05_startloop_handshake.
 
 (* the returned loop accepts tasks: while nobody has quit the loop, user code runs on a live loop *)
 Theorem C05_started_loop_alive : forall es sh scr cb uacts e,
-  ereach es sh scr (einit cb uacts) e -> sl_while es = true ->
+  ereach es sh scr (einit cb uacts) e -> tf_clears es = true -> sl_while es = true ->
   o_returned (eo e) = true -> quit_called (log (sg (ls e))) = false -> alive e = true.
 Proof. exact alive_while_unquit. Qed.
 Print Assumptions C05_started_loop_alive.
@@ -139,7 +152,7 @@ Print Assumptions C05_started_loop_alive.
    destructor can step, or it waits in join() and the child can step (never stuck in a poll that
    only the time-out could end), or the child has exited and join() returns *)
 Theorem C05_thread_dtor_terminates : forall es sh scr cb uacts e,
-  ereach es sh scr (einit cb uacts) e ->
+  ereach es sh scr (einit cb uacts) e -> tf_clears es = true ->
   resets_on_entry sh = false -> qwake_ok sh = true -> dtor_quits es = true ->
   (eo e = ODtor \/ eo e = OQuit -> exists e', estep es sh scr e EO = Some e') /\
   (eo e = OJoin -> ec e = CExited -> exists e', estep es sh scr e EO = Some e' /\ eo e' = ODone) /\
@@ -172,8 +185,9 @@ Theorem C05_thread_dtor_current_tree :
 Proof.
   destruct (resets_on_entry Gen_C04.gen_shape) eqn:E.
   - first [ vm_compute in E; discriminate E | hang_witness hang_labels_wake | hang_witness hang_labels_nowake ].
-  - intros scr cb uacts e R. apply (dtor_terminates _ _ _ _ _ _ R E C05_gen_quit_wakes).
-    rewrite C05_gen_thread_is_model. reflexivity.
+  - intros scr cb uacts e R.
+    apply (dtor_terminates _ _ _ _ _ _ R); try (rewrite C05_gen_thread_is_model; reflexivity);
+      [exact E|exact C05_gen_quit_wakes].
 Qed.
 Print Assumptions C05_thread_dtor_current_tree.
 
@@ -194,47 +208,70 @@ Print Assumptions C05_dtor_never_touches_destroyed_loop_refuted.
    second half of the destructor's quit() (after its store: the code of the owner's quit() is used up) *)
 Theorem C05_dtor_touches_destroyed_loop_partial : forall es sh scr cb uacts e,
   (forall t, qfree_acts (scr t) = true) -> qfree_acts cb = true -> qfree_acts uacts = true ->
-  sl_while es = true ->
+  tf_clears es = true -> sl_while es = true ->
   ereach es sh scr (einit cb uacts) e ->
   uaf_user e = false /\ (uaf_dtor e = true -> fcode_at (ls e) 1 = []).
 Proof. exact uaf_only_in_quit_wakeup. Qed.
 Print Assumptions C05_dtor_touches_destroyed_loop_partial.
 
+(* a destructor that starts after the loop is gone (somebody else quit the loop, the thread function
+   has returned): threadFunc has cleared loop_ under the mutex, so the destructor finds NULL and
+   touches nothing -- for every schedule *)
+Theorem C05_dtor_skips_destroyed_loop : forall es sh scr cb uacts e,
+  ereach es sh scr (einit cb uacts) e -> tf_clears es = true -> sl_while es = true ->
+  eo e = ODtor -> alive e = false ->
+  ptr e = false /\ estep es sh scr e EO = Some (with_eo e ODone).
+Proof. exact dtor_skips_destroyed_loop. Qed.
+Print Assumptions C05_dtor_skips_destroyed_loop.
+
+(* REFUTED for a threadFunc that does not clear loop_: user quit(); the thread function returns;
+   then ~EventLoopThread: loop_ is stale and the destructor's quit() stores into the destroyed loop *)
+Theorem C05_dtor_skips_destroyed_loop_refuted :
+  exists e0 e, ereach noclear_eshape fixed_shape no_scripts (einit [] [AQuit]) e0 /\
+    eo e0 = ODtor /\ ec e0 = CExited /\ alive e0 = false /\ ptr e0 = true /\
+    ereach noclear_eshape fixed_shape no_scripts (einit [] [AQuit]) e /\
+    uaf_dtor e = true /\ fcode_at (ls e) 1 = [MQuitWake].
+Proof. exact stale_ptr_witness. Qed.
+Print Assumptions C05_dtor_skips_destroyed_loop_refuted.
+
 (* ------------------------------------------------------------ EventLoopThreadPool *)
 (* stated of gen_pool_run: ANY sequence of getNextLoop / getLoopForHash calls executed with the
-   functions generated from the current EventLoopThreadPool.cc; N = number of threads, c = number
-   of getNextLoop calls made before (cursor = c mod N) *)
-Theorem C05_pool_any_sequence : forall N ops c, 0 < N ->
-  gen_pool_run N (c mod N) ops = (pool_spec N c ops, (c + count_next ops) mod N).
+   functions generated from the current EventLoopThreadPool.cc (C integer semantics); N = number of
+   threads (at most INT_MAX: the cursor is an int), c = number of getNextLoop calls made before --
+   ANY number, also beyond 2^31 and 2^32 (cursor = c mod N) --, hash codes are size_t values *)
+Theorem C05_pool_any_sequence : forall N ops c, 0 < N -> (Z.of_nat N <= int_max)%Z -> hashes_ok ops ->
+  gen_pool_run (Z.of_nat N) (Z.of_nat (c mod N)) ops = zres (pool_spec N c ops, (c + count_next ops) mod N).
 Proof. exact gen_pool_any_sequence. Qed.
 Print Assumptions C05_pool_any_sequence.
 
 (* strict round-robin: the (i+1)-th of k consecutive getNextLoop calls on a fresh pool of N > 0
    threads returns loop i mod N, for all N, k, i *)
-Theorem C05_round_robin : forall N k i, 0 < N -> i < k ->
-  nth i (fst (gen_pool_run N 0 (repeat PNext k))) None = Some (i mod N).
+Theorem C05_round_robin : forall N k i, 0 < N -> (Z.of_nat N <= int_max)%Z -> i < k ->
+  nth i (fst (gen_pool_run (Z.of_nat N) 0 (repeat PNext k))) None = Some (Z.of_nat (i mod N)).
 Proof. exact gen_round_robin. Qed.
 Print Assumptions C05_round_robin.
 
 (* any N consecutive calls, from any cursor position, return N distinct loops of the pool *)
-Theorem C05_round_robin_distinct : forall N c, 0 < N ->
-  fst (gen_pool_run N (c mod N) (repeat PNext N)) = map (fun i => Some ((c + i) mod N)) (seq 0 N) /\
+Theorem C05_round_robin_distinct : forall N c, 0 < N -> (Z.of_nat N <= int_max)%Z ->
+  fst (gen_pool_run (Z.of_nat N) (Z.of_nat (c mod N)) (repeat PNext N)) =
+    map (fun i => Some (Z.of_nat ((c + i) mod N))) (seq 0 N) /\
   NoDup (map (fun i => (c + i) mod N) (seq 0 N)) /\ (forall i, (c + i) mod N < N).
 Proof. exact gen_round_robin_distinct. Qed.
 Print Assumptions C05_round_robin_distinct.
 
 (* equal hash codes map to the same loop, wherever the calls occur in whatever call sequences,
    and getLoopForHash never moves the round-robin cursor (C05_pool_any_sequence) *)
-Theorem C05_hash_stable : forall N, 0 < N -> forall ops1 ops2 c1 c2 i1 i2 h,
+Theorem C05_hash_stable : forall N, 0 < N -> (Z.of_nat N <= int_max)%Z -> forall ops1 ops2 c1 c2 i1 i2 h,
+  hashes_ok ops1 -> hashes_ok ops2 ->
   nth_error ops1 i1 = Some (PHash h) -> nth_error ops2 i2 = Some (PHash h) ->
-  nth_error (fst (gen_pool_run N (c1 mod N) ops1)) i1 = Some (Some (h mod N)) /\
-  nth_error (fst (gen_pool_run N (c2 mod N) ops2)) i2 = Some (Some (h mod N)).
+  nth_error (fst (gen_pool_run (Z.of_nat N) (Z.of_nat (c1 mod N)) ops1)) i1 = Some (Some (Z.of_nat (h mod N))) /\
+  nth_error (fst (gen_pool_run (Z.of_nat N) (Z.of_nat (c2 mod N)) ops2)) i2 = Some (Some (Z.of_nat (h mod N))).
 Proof. exact gen_hash_stable. Qed.
 Print Assumptions C05_hash_stable.
 
 (* N = 0: every call returns the base loop (None), the cursor does not move *)
-Theorem C05_empty_pool_base : forall ops next,
-  gen_pool_run 0 next ops = (map (fun _ => None) ops, next).
+Theorem C05_empty_pool_base : forall ops next, hashes_ok ops ->
+  gen_pool_run 0 (Z.of_nat next) ops = (map (fun _ => None) ops, Z.of_nat next).
 Proof. exact gen_empty_pool_base. Qed.
 Print Assumptions C05_empty_pool_base.
 
@@ -242,7 +279,7 @@ Print Assumptions C05_empty_pool_base.
 Example C05_shapes_inhabited :
   resets_on_entry fixed_shape = false /\ resets_on_entry repaired_shape = false /\ resets_on_entry pinned_shape = true /\
   qwake_ok fixed_shape = true /\ sl_while pinned_eshape = true /\ tf_notifies pinned_eshape = true /\
-  dtor_quits pinned_eshape = true.
+  dtor_quits pinned_eshape = true /\ tf_clears pinned_eshape = true /\ tf_clears noclear_eshape = false.
 Proof. vm_compute. repeat split. Qed.
 
 (* quit() before loop() on the fixed tree: loop() returns at its first while test, quit_ is then clear *)
@@ -264,6 +301,6 @@ Proof. eexists. split; [vm_compute; reflexivity|]. vm_compute. repeat split. Qed
 
 Example C05_example_pool :
   fst (gen_pool_run 3 0 [PNext; PNext; PHash 7; PNext; PNext; PHash 7; PHash 9]) =
-    [Some 0; Some 1; Some 1; Some 2; Some 0; Some 1; Some 0] /\
+    [Some 0; Some 1; Some 1; Some 2; Some 0; Some 1; Some 0]%Z /\
   fst (gen_pool_run 0 0 [PNext; PHash 5]) = [None; None].
 Proof. vm_compute. split; reflexivity. Qed.
